@@ -203,7 +203,7 @@ func runCommand(cmd, repo, verif, prop, tier string, seed int, args []string, ti
 		if prop == "" {
 			return fmt.Errorf("check needs --property")
 		}
-		code, err := checkProperty(repo, verif, prop, tier, seed, timeout, true)
+		code, err := checkProperty(repo, verif, prop, tier, seed, timeout, os.Getenv("GOVC_NO_EVIDENCE") == "")
 		if err != nil {
 			return err
 		}
